@@ -8,6 +8,7 @@ U_TxVSize == << 100, 100, 100, 100, 200, 100 >>
 U_TxSize == << 100, 100, 100, 100, 200, 100 >>
 U_TxRbf == << TRUE, FALSE, FALSE, FALSE, FALSE, FALSE >>
 U_TxCls == << "ok", "ok", "ok", "ok", "ok", "ok" >>
+U_TxLock == << "none", "none", "none", "none", "none", "none" >>
 U_TxWit == << FALSE, FALSE, FALSE, FALSE, FALSE, FALSE >>
 U_TxWeight == << 400, 400, 400, 400, 800, 400 >>
 U_TxSigCost == << 0, 0, 0, 0, 0, 0 >>
